@@ -206,6 +206,8 @@ var goFuncs = []any{
 	20: func(m map[string]any) int { return len(m) },
 	21: func(s VS1) any { return s.A },
 	22: func(a, b any) any { return b },
+	23: func(c *pongo2.ExecutionContext, a, b, d string) string { return a + "-" + b + "-" + d },
+	24: func(c *pongo2.ExecutionContext, a, b, d, e, f string) string { return a + b + d + e + f },
 }
 
 func vFunc(id int) VT { return VT{K: "func", I: int64(id)} }
